@@ -21,7 +21,6 @@ import (
 	datatransfer "github.com/filecoin-project/go-data-transfer/v2"
 	"github.com/filecoin-project/go-data-transfer/v2/channelmonitor"
 	"github.com/filecoin-project/go-data-transfer/v2/message"
-	gst "github.com/filecoin-project/go-data-transfer/v2/transport/graphsync"
 	"github.com/filecoin-project/go-data-transfer/v2/transport/graphsync/extension"
 
 	"verif/simrt"
@@ -394,7 +393,7 @@ func (nr *netRun) open(x *xfer) {
 		st = x.sndStore
 	}
 	if x.perChA {
-		opts = append(opts, datatransfer.WithTransportOptions(gst.UseStore(st.LinkSystem())))
+		opts = append(opts, datatransfer.WithTransportOptions(a.UseStoreOption(st.LinkSystem())))
 	}
 	if x.rawKind != "" {
 		// a hand-built new request without voucher / without selector, sent by the legitimate peer's network layer
@@ -452,14 +451,14 @@ func (nr *netRun) registerConfigurersOn(n *Node) {
 				if !x.pull {
 					st = x.sndStore
 				}
-				return []datatransfer.TransportOption{gst.UseStore(st.LinkSystem())}
+				return []datatransfer.TransportOption{n.UseStoreOption(st.LinkSystem())}
 			}
 			if n == nr.B && x.perChB {
 				st := x.sndStore
 				if !x.pull {
 					st = x.rcvStore
 				}
-				return []datatransfer.TransportOption{gst.UseStore(st.LinkSystem())}
+				return []datatransfer.TransportOption{n.UseStoreOption(st.LinkSystem())}
 			}
 			return nil
 		})
